@@ -138,6 +138,37 @@ def emit_server_update(tree):
           f'Definition server_update_passes_weights_through : bool := {_b(through)}.')
 
 
+def emit_scaling(tree):
+  """alpha, beta and the scaled loss of AgnosticFedAvg over NanQ: every division goes through util.safe_div."""
+  ap = find_def(tree, 'agnostic_federated_averaging.apply')
+  al = [s for s in _body(ap) if isinstance(s, ast.Assign) and _src(s.targets[0]) == 'alpha']
+  _need(len(al) == 1 and _src(al[0].value) ==
+        'util.safe_div(server_state.domain_weights, jnp.mean(jnp.asarray(server_state.domain_window), axis=0))',
+        'alpha = util.safe_div(server_state.domain_weights, jnp.mean(jnp.asarray(server_state.domain_window), axis=0))')
+  cf = find_def(tree, 'create_domain_metrics_for_each_client.client_final')
+  d = [s for s in _body(cf) if isinstance(s, ast.Assign) and isinstance(s.value, ast.Dict)]
+  _need(len(d) == 1, 'client_final builds one dict')
+  kv = {k.value: _src(v) for k, v in zip(d[0].value.keys, d[0].value.values)}
+  _need(kv.get('beta') == "jnp.sum(shared_input['alpha'] * step_state['domain_num'])", "'beta': jnp.sum(alpha * domain_num)")
+  sl = find_def(tree, 'create_scaled_loss.scaled_loss')
+  ls = [s for s in _body(sl) if isinstance(s, ast.Assign) and _src(s.targets[0]) == 'loss']
+  _need(len(ls) == 1 and _src(ls[0].value) == 'util.safe_div(jnp.sum(alpha * domain_sum_loss), beta)',
+        'loss = util.safe_div(jnp.sum(alpha * domain_sum_loss), beta)')
+  # a round without clients: zeros instead of the None that tree_sum returns
+  srcs = [_src(s) for s in _body(ap)]
+  guard = any(s.startswith('if client_domain_metrics:') and 'sum_domain_loss = sum_domain_num = jnp.zeros(num_domains)' in s for s in srcs)
+  return ('(* ' + _src(al[0]) + ' *)\n'
+          'Definition alpha_gen (domain_weights window_mean : list NanQ.t) : list NanQ.t :=\n'
+          '  map2 Gen_util.safe_div domain_weights window_mean.\n\n'
+          "(* 'beta': " + kv['beta'] + ' *)\n'
+          'Definition beta_gen (alpha domain_num : list NanQ.t) : NanQ.t := NanQ.sum (map2 NanQ.mul alpha domain_num).\n\n'
+          '(* ' + _src(ls[0]) + ' *)\n'
+          'Definition scaled_loss_gen (alpha domain_sum_loss : list NanQ.t) (beta : NanQ.t) : NanQ.t :=\n'
+          '  Gen_util.safe_div (NanQ.sum (map2 NanQ.mul alpha domain_sum_loss)) beta.\n\n'
+          '(* an empty cohort contributes zero losses and counts (not the None of tree_sum) *)\n'
+          f'Definition empty_cohort_gives_zeros : bool := {_b(guard)}.')
+
+
 # ---- hyp_cluster -----------------------------------------------------------------------------
 
 def emit_hyp(tree):
@@ -178,6 +209,7 @@ def emit_hyp(tree):
              '   the cluster the client was assigned to *)\n'
              f'Definition accumulate_into_assigned_cluster : bool := {_b(ok)}.')
   _need(ok, 'sums[client_cluster_ids[client_id]] += n * delta; counts[...] += n')
+  out.append(_translate_accumulate(acc.body))
   _need(_src(fin.iter) == 'zip(cluster_delta_params_sum, cluster_num_examples_sum)' and len(fin.body) == 1 and
         isinstance(fin.body[0], ast.If), 'for delta_params_sum, num_examples_sum in zip(...): if ...')
   g = fin.body[0]
@@ -197,6 +229,36 @@ def emit_hyp(tree):
         _src(r[0].value.generators[0].iter) == 'cluster_losses.items()')
   out.append(f'(* {_src(r[0]) if r else ""} *)\nDefinition assignment_is_argmin : bool := {_b(ok)}.')
   return '\n\n'.join(out)
+
+
+def _translate_accumulate(body):
+  """The two indexed updates of the expectation_step loop body as a function on (sums, counts):
+  `A[i] = rhs` -> upd_with A i (fun old => rhs[A[i] := old]); `C[i] += e` -> upd_with C i (fun old => old + e)."""
+  def ex(e, arr, idx):
+    if isinstance(e, ast.Subscript) and _src(e.value) == arr and _src(e.slice) == idx:
+      return 'old'
+    if isinstance(e, ast.Subscript) and _src(e) == 'num_examples[client_id]':
+      return 'n'
+    if isinstance(e, ast.Name) and e.id == 'delta_params':
+      return 'delta_params'
+    if isinstance(e, ast.Call) and not e.keywords and dotted(e.func) in ('tree_util.tree_add', 'tree_util.tree_weight') and len(e.args) == 2:
+      return '(' + dotted(e.func).split('.')[1] + ' ' + ex(e.args[0], arr, idx) + ' ' + ex(e.args[1], arr, idx) + ')'
+    raise Unsupported('expectation_step body expression ' + _src(e))
+  s1, s2 = body[1], body[2]
+  _need(isinstance(s1, ast.Assign) and isinstance(s1.targets[0], ast.Subscript) and _src(s1.targets[0].slice) == 'cluster_id',
+        'sums[cluster_id] = ...')
+  a1 = _src(s1.targets[0].value)
+  f1 = ex(s1.value, a1, 'cluster_id')
+  _need(isinstance(s2, ast.AugAssign) and isinstance(s2.op, ast.Add) and isinstance(s2.target, ast.Subscript) and
+        _src(s2.target.slice) == 'cluster_id', 'counts[cluster_id] += ...')
+  a2 = _src(s2.target.value)
+  f2 = ex(s2.value, a2, 'cluster_id')
+  return ('(* ' + _src(s1) + ' ; ' + _src(s2) + ' *)\n'
+          'Fixpoint upd_with {A : Type} (l : list A) (i : nat) (f : A -> A) : list A :=\n'
+          '  match l, i with [], _ => [] | x :: r, O => f x :: r | x :: r, S j => x :: upd_with r j f end.\n'
+          'Definition expectation_accumulate {T : Type} (tree_add : T -> T -> T) (tree_weight : T -> Q -> T)\n'
+          f'    ({a1} : list T) ({a2} : list Q) (cluster_id : nat) (delta_params : T) (n : Q) : list T * list Q :=\n'
+          f'  (upd_with {a1} cluster_id (fun old => {f1}),\n   upd_with {a2} cluster_id (fun old => (old + {f2})%Q)).')
 
 
 # ---- mime_lite --------------------------------------------------------------------------------
@@ -288,7 +350,8 @@ def emit_ignore(tree):
 PRE = 'From Coq Require Import QArith.\nFrom FV Require Import Common.CMonoid Common.NanQ.\n'
 
 MODULES = {
-    'Gen_c17_agnostic': {'src': ALG + 'agnostic_fed_avg.py', 'preamble': PRE, 'items': [emit_eg, emit_server_update]},
+    'Gen_c17_agnostic': {'src': ALG + 'agnostic_fed_avg.py', 'preamble': PRE + 'From FV Require gen.Gen_util.\n',
+                         'items': [emit_eg, emit_server_update, emit_scaling]},
     'Gen_c17_hyp_cluster': {'src': ALG + 'hyp_cluster.py', 'preamble': PRE, 'items': [emit_hyp]},
     'Gen_c17_mime_lite': {'src': ALG + 'mime_lite.py', 'preamble': '', 'items': [emit_mime_lite]},
     'Gen_c17_apfl': {'src': ALG + 'apfl.py', 'preamble': PRE, 'items': [emit_apfl]},
